@@ -347,6 +347,13 @@ func (c *Cluster) Release(token string) bool {
 	return true
 }
 
+// UntokenisedCount returns how many untokenised frames with this opcode the hosts have received.
+func (c *Cluster) UntokenisedCount(op byte) int {
+	c.mu.Lock()
+	defer c.mu.Unlock()
+	return c.Untokenised[op]
+}
+
 // HeldOptions returns how many heartbeat replies are parked.
 func (c *Cluster) HeldOptions() int { c.mu.Lock(); defer c.mu.Unlock(); return len(c.heldOpts) }
 
